@@ -12,3 +12,5 @@ for p in "$@"; do
   echo "$out" | grep -E "^\[C|^VIOLATION|violation class|INCONCLUSIVE" | cut -c1-420 | head -${SEEDTEST_LINES:-8}
 done
 git -C /repo checkout -- . ; git -C /repo status --short | head -3
+# the evidence files now describe a run on the modified tree: put the committed ones (runs on the unchanged tree) back
+git -C /verif checkout -- evidence 2>/dev/null
